@@ -34,10 +34,11 @@ namespace {
 // =================================================================== script (as the plan carries it)
 struct AttrS { XS name, value; };
 struct EvS { std::string kind; XS name, text, target; std::vector<AttrS> attrs; };
-struct Script { std::string encoding, version; std::vector<XS> cdataElems; std::vector<EvS> ev; };
+struct Script { std::string encoding, version; std::vector<XS> cdataElems; std::vector<EvS> ev; std::string dtSys, dtPub, standalone; bool omitDecl = false; };
 
 Script scriptFromPlan(const Json& p) {
     Script s; s.encoding = p.str("encoding", "UTF-8"); s.version = p.str("version", "1.0");
+    s.dtSys = p.str("doctype_system", ""); s.dtPub = p.str("doctype_public", ""); s.standalone = p.str("standalone", ""); s.omitDecl = p.boolean("omit_decl");
     for (auto& n : p.at("cdata_elems").a) s.cdataElems.push_back(xsFromJson(n));
     for (auto& e : p.at("events").a) {
         if (e.t != Json::Obj) continue;
@@ -299,6 +300,8 @@ std::string stylesheetFor(const Script& s, const Model& m, const Cfg& c) {
     std::string x = "<?xml version=\"1.0\" encoding=\"UTF-8\"?><xsl:stylesheet version=\"1.0\" xmlns:xsl=\"http://www.w3.org/1999/XSL/Transform\"";
     for (auto& kv : decl) if (kv.first != ascii("xsl")) x += " xmlns:" + utf8(kv.first) + "=\"" + xmlEscape(kv.second, true) + "\"";
     x += "><xsl:output method=\"xml\" indent=\"no\" encoding=\"" + s.encoding + "\" version=\"" + s.version + "\"";
+    if (!s.dtSys.empty()) x += " doctype-system=\"" + xmlEscape(ascii(s.dtSys.c_str()), true) + "\""; if (!s.dtPub.empty()) x += " doctype-public=\"" + xmlEscape(ascii(s.dtPub.c_str()), true) + "\"";
+    if (!s.standalone.empty()) x += " standalone=\"" + s.standalone + "\""; if (s.omitDecl) x += " omit-xml-declaration=\"yes\"";
     std::string cd; for (auto& n : s.cdataElems) { XS p, l; splitQ(stripNul(n), p, l); if (n.empty() || (!p.empty() && !decl.count(p))) continue; if (!cd.empty()) cd += " "; cd += xmlEscape(stripNul(n), true); }
     if (!cd.empty()) x += " cdata-section-elements=\"" + cd + "\"";
     x += "/><xsl:template match=\"@*|node()\"><xsl:copy><xsl:apply-templates select=\"@*|node()\"/></xsl:copy></xsl:template>";
@@ -327,7 +330,7 @@ Out runCfg(const Script& s, const Model& m, const Cfg& c, const SinkFault& fault
             if (st != 0) { o.threw = true; o.excType = "status"; const char* e = T.getLastError(); o.excMsg = e ? e : ""; }
         });
     } else {
-        XalanDOMString version(s.version.c_str(), mm), encoding(s.encoding.c_str(), mm), empty(mm);
+        XalanDOMString version(s.version.c_str(), mm), encoding(s.encoding.c_str(), mm), empty(mm), dtSys(s.dtSys.c_str(), mm), dtPub(s.dtPub.c_str(), mm), standalone(s.standalone.c_str(), mm); const bool xmlDecl = !s.omitDecl;
         SinkXalanOutputStream os(sink, mm, c.b, c.t);
         XalanOutputStreamPrintWriter pw(os);
         if (!c.prelude.empty()) {
@@ -347,14 +350,14 @@ Out runCfg(const Script& s, const Model& m, const Cfg& c, const SinkFault& fault
         }
         if (c.ser == "legacy") {
             guarded(o, [&] {
-                FormatterToXML fx(pw, version, false, 0, encoding, empty, empty, empty, true, empty, FormatterListener::OUTPUT_METHOD_XML, true, mm);
+                FormatterToXML fx(pw, version, false, 0, encoding, empty, dtSys, dtPub, xmlDecl, standalone, FormatterListener::OUTPUT_METHOD_XML, true, mm);
                 feedAll(fx, pw, m, c, o, mm);
                 o.writesAtEnd = sink.writes; o.flushesAtEnd = sink.flushes;
             });
         } else {
             FormatterListener* fl = nullptr;
             guarded(o, [&] {
-                fl = XalanXMLSerializerFactory::create(mm, pw, version, false, 0, encoding, empty, empty, empty, true, empty);
+                fl = XalanXMLSerializerFactory::create(mm, pw, version, false, 0, encoding, empty, dtSys, dtPub, xmlDecl, standalone);
                 feedAll(*fl, pw, m, c, o, mm);
                 o.writesAtEnd = sink.writes; o.flushesAtEnd = sink.flushes;
             });
@@ -391,6 +394,10 @@ struct Recorder : public xercesc::DefaultHandler {
 Parsed parseBytes(const std::string& bytes) {
     static xercesc::SAX2XMLReader* reader = nullptr; static Recorder rec;
     using xercesc::XMLUni;
+    // A document without an XML declaration is parsed by a reader of its own: a reused Xerces reader keeps treating U+2028 / U+0085 as line
+    // ends after an XML 1.1 document when the next document does not say which version it is (seen with omit-xml-declaration; harness matter).
+    const bool noDecl = !(bytes.size() > 6 && bytes.compare(0, 5, "<?xml") == 0 && (bytes[5] == ' ' || bytes[5] == '\t' || bytes[5] == '\n' || bytes[5] == '\r'));   // "<?xml-stylesheet" is no declaration
+    if (noDecl && reader) { delete reader; reader = nullptr; }
     if (!reader) {
         reader = xercesc::XMLReaderFactory::createXMLReader();
         reader->setFeature(XMLUni::fgSAX2CoreNameSpaces, true); reader->setFeature(XMLUni::fgSAX2CoreNameSpacePrefixes, true);
@@ -404,6 +411,7 @@ Parsed parseBytes(const std::string& bytes) {
     try {
         xercesc::MemBufInputSource src((const XMLByte*)bytes.data(), bytes.size(), "sim-output", false);
         reader->parse(src); p.ok = true;
+        if (noDecl) { delete reader; reader = nullptr; }
     }
     catch (const xercesc::SAXParseException& e) { fail(toUtf8(XalanDOMString(e.getMessage()))); }
     catch (const xercesc::SAXException& e) { fail(toUtf8(XalanDOMString(e.getMessage()))); }
@@ -574,6 +582,8 @@ std::string pairNames(const PairMask& pm, bool withConstruct) {
     std::string r;
     // characters XML forbids everywhere (U+0000, lone surrogates, U+FFFE/FFFF) are named without the construct they sit in
     const uint32_t everywhere = (1u << S_NUL) | (1u << S_SURR) | (1u << S_NONCHAR);
+    // a lone surrogate makes the whole tree unrepresentable: whatever else the reduction could not remove (its budget is finite) is beside the point
+    { uint32_t u = 0; for (int k = 0; k < K_N; ++k) u |= pm.m[k]; if (u & (1u << S_SURR)) return "surrogate"; }
     if (withConstruct) {
         for (int k = 0; k < K_N; ++k) for (int c = 1; c < S_N; ++c) if ((pm.m[k] & (1u << c)) && !(everywhere & (1u << c))) { if (!r.empty()) r += "+"; r += std::string(CK_NAME[k]) + "." + SCLS_NAME[c]; }
         uint32_t u = 0; for (int k = 0; k < K_N; ++k) u |= pm.m[k]; for (int c = 1; c < S_N; ++c) if (u & everywhere & (1u << c)) { if (!r.empty()) r += "+"; r += SCLS_NAME[c]; }
@@ -709,6 +719,11 @@ struct C04 : public Driver {
         static const std::vector<std::pair<const char*, int>> encs = { { "UTF-8", 24 }, { "UTF-16", 15 }, { "ISO-8859-1", 15 }, { "US-ASCII", 10 }, { "windows-1252", 8 }, { "Shift_JIS", 7 }, { "ISO-8859-2", 5 }, { "GB18030", 5 }, { "UTF-16LE", 2 }, { "UTF-16BE", 2 }, { "x-sim-no-such-encoding", 4 }, { "utf-8", 3 }, { "ISO-8859-15", 4 }, { "windows-1251", 2 }, { "EUC-JP", 2 }, { "Big5", 2 }, { "ISO-8859-7", 2 }, { "KOI8-R", 1 } };
         { int tot = 0; for (auto& e : encs) tot += e.second; int x = (int)g.below(tot); for (auto& e : encs) { if (x < e.second) { p["encoding"] = e.first; break; } x -= e.second; } }
         p["version"] = g.chance(35, 100) ? "1.1" : "1.0";
+        // document type declaration, standalone, omitted XML declaration (the last only where a parser can still tell encoding and version)
+        { Rng gd = root.fork("decl"); static const std::vector<std::string> sys = { "a.dtd", "http://example.org/dtd/x y.dtd", "it's.dtd", "d&e.dtd", "x<y.dtd" }; static const std::vector<std::string> pub = { "-//SIM//DTD Doc 1.0//EN", "ISO/IEC 1:2:3", "pub'lic" };
+          if (gd.chance(1, 6)) { p["doctype_system"] = gd.pick(sys); if (gd.chance(1, 2)) p["doctype_public"] = gd.pick(pub); }
+          if (gd.chance(1, 8)) p["standalone"] = gd.chance(1, 2) ? "yes" : "no";
+          if (gd.chance(1, 8) && p.str("version") == "1.0" && (p.str("encoding") == "UTF-8" || p.str("encoding") == "utf-8")) p["omit_decl"] = true; }
         // swarm: a few character classes per script
         static const std::vector<int> benign = { C_LTAMP, C_GT, C_QUOT, C_RSB, C_TAB, C_LF, C_CR, C_LATIN1, C_BMP, C_SUPP, C_C1, C_NEL, C_LSEP };
         static const std::vector<int> hostile = { C_C0, C_NUL, C_SURR, C_NONCHAR };
@@ -853,6 +868,7 @@ struct C04 : public Driver {
         { XEnv env; for (auto& kv : plan.at("resources").o) env.fs.put(kv.first, kv.second.s); SimSink sink; XReq r2 = rq; r2.tgtForm = "xercesdom"; treeOut = runTransform(env, r2, sink); }
         res.count("scripts"); res.count("gen-mode"); res.count("enc:" + plan.str("encoding")); for (auto& f : plan.at("features").a) res.tag("gen|" + plan.str("encoding") + "|" + f.s);
         tr.ev("gen st=" + std::to_string(bytesOut.status) + "/" + std::to_string(treeOut.status) + " out=" + hex64(fnvStr(bytesOut.bytes)) + " tree=" + hex64(fnvStr(treeOut.canon)));
+        if (getenv("C04_DUMP")) { FILE* f = fopen("/tmp/c04_gen_dump.bin", "wb"); if (f) { fwrite(bytesOut.bytes.data(), 1, bytesOut.bytes.size(), f); fclose(f); } }
         if (!bytesOut.ok() || !treeOut.ok()) { res.count("gen-mode:transformation-failed"); return; }
         // disable-output-escaping travels through trees as the marker PI <?Xalan raw?> (by design, so that a later serialization of the
         // tree can honour it); the serializers consume it, a DOM target keeps it: not part of the comparison
